@@ -294,9 +294,12 @@ def spec() -> Spec:
         extract=extract,
         nontrivial=nontrivial,
         post=post,
-        budget={"quick": 300, "thorough": 8000},
-        search_budget={"quick": 900, "thorough": 12000},
-        divergence_is_violation=True,
+        budget={"quick": 220, "thorough": 8000},
+        search_budget={"quick": 600, "thorough": 12000},
+        # the property fixes what a record must *decode to*, not its exact bytes (`\n` and `\u000A` are
+        # equally good), so violations are decided by the monitors (Lean decoder, Python json); a bare
+        # model/implementation difference is a broken correspondence, not a violation by itself
+        divergence_is_violation=False,
         rule="escape_json on every single byte value, every byte in random context, random byte mixes of lengths 0..4096; log() records with "
              "0..40 fields of random valid UTF-8 (controls, quotes, backslashes, 2/3/4-byte sequences at the length boundaries) and "
              "attacker-style strings (record/field injection, newlines, NUL, escapes of escapes), plus raw non-UTF-8 bytes for the "
